@@ -224,6 +224,12 @@ fn type_text(t: &VT) -> String {
 
 /// Full program text for a model.
 pub fn model_text(m: &M, rng: &mut ChaCha8Rng, style: Style) -> String {
+    model_text_ex(m, rng, style, false).0
+}
+
+/// Like `model_text`; with `omit_where` the where-section is left out and the named constants
+/// (returned in any case) have to be supplied through the API.
+pub fn model_text_ex(m: &M, rng: &mut ChaCha8Rng, style: Style, omit_where: bool) -> (String, Vec<(String, f64)>) {
     let mut pr = Printer { names: &m.names, style, rng, consts: vec![] };
     let mut out = String::new();
     if style.comments {
@@ -259,7 +265,7 @@ pub fn model_text(m: &M, rng: &mut ChaCha8Rng, style: Style) -> String {
         // the grammar needs a line break between an empty constraint list and the next section
         out.push('\n');
     }
-    if !pr.consts.is_empty() {
+    if !pr.consts.is_empty() && !omit_where {
         out.push_str("where\n");
         for (n, v) in &pr.consts {
             out.push_str(&format!("    let {n} = {}\n", num_text(*v)));
@@ -278,5 +284,6 @@ pub fn model_text(m: &M, rng: &mut ChaCha8Rng, style: Style) -> String {
         out.push_str(&format!("    {} as {}\n", group.join(", "), type_text(&m.types[i])));
         i = j;
     }
-    out
+    let consts = pr.consts.clone();
+    (out, consts)
 }
